@@ -828,10 +828,10 @@ class Controller(object):
         closest_points = np.argsort(all_sq_dist)
         if params("restarts.soft.move_xk"):
             closest_points = closest_points[:params("restarts.soft.num_geom_steps")]
-            upper_limit = self.model.num_pts
+            upper_limit = self.model.npt()  # points held now (fewer than num_pts while still growing)
         else:
             closest_points = closest_points[1:params("restarts.soft.num_geom_steps")+1]
-            upper_limit = self.model.num_pts - 1
+            upper_limit = self.model.npt() - 1
 
         for i in range(min(params("restarts.soft.num_geom_steps"), upper_limit)):
             # Determine which point to update (knew)
